@@ -1,16 +1,19 @@
 #!/bin/bash
 # usage: tools/seeded_check.sh <id> <patch.diff> [tier] [check-id]
-# Applies a seeded change to /repo's working tree, runs the check, restores the tree.
+# Applies a seeded change to a scratch copy of /repo's working tree (under
+# /tmp, removed afterwards), runs the check against that copy
+# (VERIF_ALT_REPO: evidence and replays go to work/alt, not to the registered
+# locations) and reports the outcome. /repo itself is not touched.
 set -u
-id=$1; patch=$2; tier=${3:-quick}; cid=${4:-$id}
-cd /repo
-if ! git diff --quiet; then echo "repo dirty"; exit 3; fi
-git apply "$patch" || { echo "PATCH DOES NOT APPLY"; exit 3; }
+id=$1; patch=$(readlink -f "$2"); tier=${3:-quick}; cid=${4:-$id}
+alt=/tmp/altrepo.$$
+rm -rf $alt; mkdir -p $alt
+rsync -a --exclude .git /repo/ $alt/
+( cd $alt && git apply "$patch" ) || { echo "PATCH DOES NOT APPLY"; rm -rf $alt; exit 3; }
 cd /verif
-timeout 3600 ./check "$cid" --tier "$tier" > /tmp/seeded.out 2>&1
+VERIF_ALT_REPO=$alt timeout 3600 ./check "$cid" --tier "$tier" > /tmp/seeded.$$.out 2>&1
 rc=$?
-grep -E "^(VIOLATION|OK|INCONCLUSIVE|KNOWN)" /tmp/seeded.out | head -4
-grep -E "^\s+\S+_test.go:[0-9]+: (\[rapid\] failed|[A-Z0-9]+:)" /tmp/seeded.out | head -3 | cut -c1-500
+grep -E "^(VIOLATION|OK|INCONCLUSIVE|KNOWN)" /tmp/seeded.$$.out | head -4
+grep -E "^\s+\S+_test.go:[0-9]+: (\[rapid\] failed|[A-Z0-9]+:)" /tmp/seeded.$$.out | head -3 | cut -c1-500
 echo "exit=$rc"
-git -C /repo checkout -- .
-rm -rf /verif/replays/$cid 2>/dev/null
+rm -rf $alt /tmp/seeded.$$.out /verif/work/alt/replays/$cid
